@@ -1492,6 +1492,10 @@ class Interp:
             return Opaque(c.why + "[]")
         if isinstance(c, Sym):
             raise Undecided(f"subscript of {c!r}")
+        if contains_sym(k) and not isinstance(c, (list, tuple, dict, str, bytes, range)) and not isinstance(c, type):
+            raw = getattr(type(c), "__getitem__", None)
+            if isinstance(raw, types.FunctionType):
+                return self._call_pyfunc(raw, [c, k], {}, raw)
         if isinstance(k, SInt) and isinstance(c, (list, tuple)):
             n = len(c)
             for i in range(-n, n):
@@ -1967,6 +1971,11 @@ def _fp_eq(interp, a, b):
 def _m_isinstance(interp, v, cls):
     v = interp.resolve(v)
     if not isinstance(v, Sym):
+        claims = getattr(type(v), "_pyvc_claims", None)
+        if claims:
+            cs = cls if isinstance(cls, tuple) else (cls,)
+            if any(c in claims for c in cs):
+                return True
         return isinstance(v, cls)
     if isinstance(cls, tuple):
         return any(_m_isinstance(interp, v, c) for c in cls)
@@ -2280,7 +2289,14 @@ def _m_object_setattr(interp, obj, name, value):
     return interp.native(object.__setattr__, [obj, name, value], {})
 
 
+def _m_iter(interp, v, *a):
+    if a:
+        return interp.native(iter, [v] + list(a), {})
+    return list(interp.iterate(v))
+
+
 DEFAULT_MODELS = {
+    iter: _m_iter,
     object.__setattr__: _m_object_setattr,
     _math.copysign: _m_copysign,
     isinstance: _m_isinstance, len: _m_len, set: _m_set, list: _m_list, tuple: _m_tuple,
